@@ -972,6 +972,99 @@ def replay_behaviour(hist, chans, max_bytes, scale, seed):
     return [trace[c] for c in chans], diffs
 
 
+# fixed sequential scripts around set_combine_stderr(True) ... set_combine_stderr(False) on ONE real Channel:
+#   ("w", stream, n)  the peer's n next bytes of `stream` are dispatched (_feed / _feed_extended)
+#   ("comb", flag)    set_combine_stderr(flag)          ("r", ep, k)  recv / recv_stderr of up to k bytes
+#   ("eof",)          the peer's EOF is processed;  at the end both endpoints are read until nothing is left
+COMBINE_SCRIPTS = (
+    # combining on, off again, then the peer writes stdout + stderr
+    [("comb", True), ("comb", False), ("w", "out", 40), ("w", "err", 48), ("eof",)],
+    # stderr buffered before the switch on, combined traffic, off again with more of both streams afterwards
+    [("w", "err", 24), ("comb", True), ("w", "out", 16), ("w", "err", 32), ("r", "out", 4096), ("comb", False),
+     ("w", "err", 40), ("w", "out", 24), ("r", "err", 16), ("w", "err", 8), ("eof",)],
+    # combined stderr data still unread in the stdout buffer when combining goes off
+    [("comb", True), ("w", "err", 32), ("comb", False), ("w", "err", 32), ("w", "out", 32), ("r", "out", 8),
+     ("w", "err", 16), ("eof",)],
+    # set_combine_stderr(False) on a channel that never combined (no-op), and on -> (stays on)
+    [("comb", False), ("w", "err", 24), ("w", "out", 24), ("eof",)],
+    [("w", "err", 24), ("comb", True), ("comb", True), ("w", "err", 24), ("w", "out", 24), ("eof",)],
+)
+
+
+def combine_script(script, seed=0, chan=1):
+    """run one of COMBINE_SCRIPTS; returns a trace in run_e2e format (combine = "onoff" with off_t0 / off_t1 /
+    off_at when combining was switched on and off again)"""
+    import socket
+    from harness.drivers import chan as dchan
+    book = Codebook(seed, 0)
+    total = {s: sum(st[2] for st in script if st[0] == "w" and st[1] == s) for s in STREAMS}
+    data = {s: book.make(2 * chan + si, total[s]) for si, s in enumerate(STREAMS)}
+    ch, _ft = dchan.make_channel(chanid=chan)
+    ch.settimeout(0.0)
+    tr = {"chan": chan, "dir": "down", "sent": {"out": 0, "err": 0}, "combine": "off", "events": [],
+          "comb_t0": 0, "comb_t1": 0, "off_t0": 0, "off_t1": 0, "off_at": 0,
+          "status_sent": limbs(None), "status_got": limbs(None)}
+    clock = [0]
+
+    def stamp():
+        clock[0] += 1
+        return clock[0]
+
+    def read(ep, k):
+        t0 = stamp()
+        try:
+            d = ch.recv_stderr(k) if ep == "err" else ch.recv(k)
+        except socket.timeout:
+            d = b""
+        tr["events"].append({"ep": ep, "t0": t0, "t1": stamp(), "data": d})
+        return d
+    for st in script:
+        if st[0] == "w":
+            _, s, n = st
+            piece = data[s][tr["sent"][s]:tr["sent"][s] + n]
+            tr["sent"][s] += n
+            if s == "out":
+                ch._feed(dchan.msg_data(piece))
+            else:
+                ch._feed_extended(dchan.msg_ext(1, piece))
+        elif st[0] == "comb":
+            t0 = stamp()
+            old = ch.set_combine_stderr(st[1])
+            t1 = stamp()
+            if st[1] and not old and tr["combine"] == "off":
+                tr.update(combine="mid", comb_t0=t0, comb_t1=t1)
+            elif not st[1] and old and tr["combine"] == "mid":
+                tr.update(combine="onoff", off_t0=t0, off_t1=t1, off_at=tr["sent"]["err"])
+            elif bool(st[1]) != bool(old):
+                raise ValueError("script switches combining more than on -> off: %r" % (script,))
+        elif st[0] == "r":
+            read(st[1], st[2])
+        elif st[0] == "eof":
+            ch._handle_eof(None)
+    for ep in ("out", "err"):
+        while read(ep, 4096):
+            pass
+    # rendering in time order.  After on -> off the stderr stream is split between the endpoints, so "continue where
+    # this endpoint stopped" (Codebook.render) is not the position of the next slice: of the candidates (this
+    # endpoint's cursor, the other one's, where the first 32 bytes occur in the stream) the longest match wins
+    cur = {"out": {}, "err": {}}
+    for e in tr["events"]:
+        d, own, other = e.pop("data"), cur[e["ep"]], cur["err" if e["ep"] == "out" else "out"]
+        seen = set()
+        for i in range(len(d)):
+            key = d[i] >> 4
+            if key in seen or key not in book.truth:
+                continue
+            seen.add(key)
+            j = i
+            while j < len(d) and (d[j] >> 4) == key:
+                j += 1
+            cands = [own.get(key, 0), other.get(key, 0), max(book.truth[key].find(d[i:min(j, i + 32)]), 0)]
+            own[key] = max(cands, key=lambda p: _common_prefix(d[i:j], book.truth[key], p))
+        e["runs"] = book.runs(d, own)
+    return tr
+
+
 # --------------------------------------------------------------------------- C23: channel ids
 
 def quiet_logs():
@@ -1071,9 +1164,9 @@ class IdRig:
             finally:
                 s.atomic_depth -= 1
 
-        def next_channel():
+        def next_channel(*a, **kw):          # pass through whatever the code's own callers give it
             ctr = t._channel_counter
-            cid = real_next()
+            cid = real_next(*a, **kw)
             self.events.append({"op": "alloc", "who": who(), "id": cid, "ctr": ctr})
             return cid
 
@@ -1627,9 +1720,9 @@ def _instrument(t, events):
     def who():
         return real_threading.current_thread().name
 
-    def next_channel():
+    def next_channel(*a, **kw):
         ctr = t._channel_counter
-        cid = real_next()
+        cid = real_next(*a, **kw)
         events.append({"op": "alloc", "who": who(), "id": cid, "ctr": ctr})
         return cid
 
